@@ -228,6 +228,9 @@ class Lib:
 
     def setitem(self, ex, v, idx, value):
         from .exec import _ObjDict
+        hook = ex.opt.get("on_setitem")
+        if hook is not None:
+            hook(ex, v, idx, value)       # a contract's obligation on stores into a container
         if isinstance(idx, SliceObj):
             if idx.step is not None and idx.step != 1:
                 raise OutOfReach("extended slice assignment")
@@ -1266,6 +1269,16 @@ def _od_get(ex, d, k, default=None):
     from .exec import Unbound
     v = d.obj.fields.get(k, default)
     return default if v is Unbound else v
+
+
+@method_of(("_ObjDict", "setdefault"))
+def _od_setdefault(ex, d, name, default=None):
+    from .exec import Unbound
+    if not isinstance(name, str):
+        raise OutOfReach("__dict__.setdefault with a symbolic key")
+    if d.obj.fields.get(name, Unbound) is Unbound:
+        d.obj.fields[name] = default
+    return d.obj.fields[name]
 
 
 @method_of(("_ObjDict", "values"))
